@@ -16,11 +16,23 @@ import mltie as T
 CID = 'C06'
 
 
+def regen():
+    return T.regen_gen()
+
+
+def setup():
+    regen()
+
+
 def run(tier, seed):
     R = C.Report(CID, tier, seed)
     rng = C.rng_for(seed, CID)
     quick = tier == 'quick'
+    ok_tr, tr_msg = regen()
     P = R.proof_stage()
+    if not ok_tr:
+        P['ok'] = False
+        P['log'] = 'translator failed closed: ' + tr_msg
     tie = T.Tie(R)
     if not tie.ready:
         R.violation('tie-build-failed', 'could not build model or Rust harness',
@@ -128,7 +140,7 @@ def run(tier, seed):
     R.coverage['rule'] = ('meta-patterns: well-formedness-biased generator (nested binders, constrained metavariables, stacked ESubst/SSubst) and raw '
                           'generator (any constructor anywhere); each judged for one of 5 variables by the four Rust functions and by the model; '
                           'instantiated on the Rust side with concrete plugs for all its metavariables; non-trivial = not rejected; distinct by request')
-    return R.finish(trusted_base=C.TRUSTED_COMMON + ['harness/rust/harness.rs entry points F/W/I calling the private lib.rs functions',
+    return R.finish(trusted_base=C.TRUSTED_COMMON + ['translators/rust_judge.py (Rust-subset parser/emitter for the six judgement functions of impl Pattern; fail closed)', 'harness/rust/harness.rs entry points F/W/I calling the private lib.rs functions',
                                                     'harness/mloracle.py textbook free-variable/polarity functions (search only)'])
 
 
